@@ -16,12 +16,16 @@ max-heap is a maximum, so it either pops nothing or empties the heap – that is
 written (BinaryHeap's contract is trusted, see the plugin's TRUSTED_EXTRA).  Consequently the
 heap always holds exactly the operations appended since it was last empty, pushed in that order.
 
-Two switches select between what the code does (`false`) and what the repaired code would do:
-* `fixSnap`  – `get_snapshot` folds the log chronologically, the last operation on an element wins
-               (as-is: heap-vector order, an insert cancels a pending remove and vice versa);
+Two switches record two defects that were found with this model and have since been repaired in
+/repo (commits d9a4d81 and b91d22f); `true` is what the code does now, `false` what it did before:
+* `fixSnap`  – `get_snapshot` folds the log chronologically (epoch, then issue order), the last
+               operation on an element wins (before d9a4d81: heap-vector order, an insert cancelled a
+               pending remove and vice versa) – finding F10;
 * `fixSpill` – the `Spilled` merge iterator keeps draining the half-constructed set when it meets a
-               removed element (as-is: falls through to the rest iterator / the added elements and
-               ends the whole iteration when those are exhausted).
+               removed element (before b91d22f: fell through to the rest iterator / the added
+               elements and ended the whole iteration when those were exhausted) – finding F17.
+`repaired` (= both on) is the configuration of the code as it is; `asIs` (= both off) is kept, under
+its historical name, as the configuration of the code before the two fixes, for the witnesses.
 
 Foreground operations (insert / remove / get) are atomic steps here; background events (commit,
 notify, evictions) are placed between them.  Sets are lists; only membership is ever compared.
@@ -33,7 +37,9 @@ structure Cfg where
   fixSpill : Bool
 deriving DecidableEq, Repr
 
+/-- the code BEFORE the fixes of F10 and F17 (historical) -/
 def asIs : Cfg := ⟨false, false⟩
+/-- the code as it is (both repairs in place) -/
 def repaired : Cfg := ⟨true, true⟩
 
 /-- `VersionedOperation`: Insert(x)/Remove(x) stamped with the batch epoch. -/
@@ -111,7 +117,7 @@ structure Snapshot where
   removed : List Nat
 deriving DecidableEq, Repr
 
-/-- as-is: `Insert(v)`: if `removed.remove(v)` failed then `added.insert(v)`; symmetric for `Remove`. -/
+/-- before d9a4d81: `Insert(v)`: if `removed.remove(v)` failed then `added.insert(v)`; symmetric for `Remove`. -/
 def cancelStep (sn : Snapshot) (op : LogOp) : Snapshot :=
   if op.ins then
     if op.x ∈ sn.removed then { sn with removed := sremove op.x sn.removed }
@@ -120,7 +126,7 @@ def cancelStep (sn : Snapshot) (op : LogOp) : Snapshot :=
     if op.x ∈ sn.added then { sn with added := sremove op.x sn.added }
     else { sn with removed := sinsert op.x sn.removed }
 
-/-- repaired: the last operation on an element wins. -/
+/-- the code now: the last operation on an element wins. -/
 def lastStep (sn : Snapshot) (op : LogOp) : Snapshot :=
   if op.ins then { added := sinsert op.x sn.added, removed := sremove op.x sn.removed }
   else { added := sremove op.x sn.added, removed := sinsert op.x sn.removed }
@@ -140,7 +146,7 @@ def stagingSnapshot (s : State) : Snapshot :=
 def streamIter (db : List Nat) (sn : Snapshot) : List Nat :=
   db.filter (fun x => x ∉ sn.removed) ++ sn.added
 
-/-- `MergeIterator::Spilled`, as-is.  One unfolding = one call of `next()`; the iteration ends at
+/-- `MergeIterator::Spilled` before b91d22f.  One unfolding = one call of `next()`; the iteration ends at
 the first `None`.  (`removed.remove` in the rest loop cannot matter: a store scan has no duplicates.) -/
 def spillIterAsIs (removed : List Nat) : List Nat → List Nat → List Nat → Nat → List Nat
   | _, _, _, 0 => []
@@ -291,7 +297,7 @@ end QbiceVerif.SetCache
 
 namespace QbiceVerif.SetCache
 
-/-- The trigger-free region of the as-is code (hypothesis of `set_refines_map_asis_partial`):
+/-- The trigger-free region of the code before the fixes of F10/F17 (hypothesis of `set_refines_map_asis_partial`):
 when the set is read, its staging log holds at most one operation per element, and a read that
 fetches a set whose store image exceeds the threshold has no staged removal of one of the first
 `thr+1` store elements (the part that is materialised before the fetch gives up). -/
